@@ -185,6 +185,24 @@ def currencyDup : Except Err (Nat × Nat) :=
 theorem finding_idem_currency_duplicate : currencyDup = .ok (2, 3) := by
   decide +kernel
 
+def collide : Except Err (Nat × Nat × Option Str) :=
+  match newStyle initReg { zs with numFmt := 165, decimalPlaces := some 3 } with
+  | .error e => .error e
+  | .ok (r1, id1, _) =>
+    match newStyle r1 { zs with numFmt := 164 } with
+    | .error e => .error e
+    | .ok (r2, id2, _) =>
+      match getStyle (fun _ => -1) r2 id2 with
+      | .error e => .error e
+      | .ok g => .ok (id1, id2, g.customNumFmt)
+
+/-- numFmtIds are allocated from 164, the range of the currency format ids: after
+`NewStyle{NumFmt:165, DecimalPlaces:3}` (numFmtId 164), `NewStyle{NumFmt:164}` is "found" as that
+style — the same id, reading back the 165 format with three decimals -/
+theorem finding_readback_currency_id_collision :
+    collide = .ok (1, 1, some "[$$-409]#,##0.000".toList) := by
+  decide +kernel
+
 def grad2 : Style := { zs with fill := ⟨"gradient".toList, 0, ["112233".toList, "445566".toList], 2⟩ }
 
 def readFill (s : Style) : Except Err Fill :=
